@@ -189,7 +189,7 @@ inductive Out where
   /-- `construct_outgoing_multicast_answers` sent to the group on every sender socket -/
   | mcast (answers adds : List RecId)
   /-- `construct_outgoing_unicast_answers` sent to `(addr, port)` on the receiving transport -/
-  | ucast (addr port id : Nat) (echo : Bool) (answers adds : List RecId)
+  | ucast (addr port id : Nat) (nquestions : Nat) (answers adds : List RecId)   -- `nquestions`: size of the echoed question section
   deriving Repr, DecidableEq
 
 def Out.ofMcast (d : Dict) : Out := .mcast d.keys (additionalsOf d)
@@ -339,9 +339,9 @@ def queueAdd (p : QP) (q : Queue) (clock now : Int) (answers : Dict) (draws : Li
   | .ok (d, rest) => .ok (q.add p clock now d answers, [Draw.mk drawLo drawHi d], rest)
 
 /-- the datagrams `handle_assembled_query` sends at once -/
-def immediateOuts (qa : QA) (addr port id : Nat) (ucastSource : Bool) : List Out :=
+def immediateOuts (qa : QA) (addr port id nq : Nat) (ucastSource : Bool) : List Out :=
   (if qa.ucast.isEmpty then [] else
-    [Out.ucast addr port id (Gen.Reply.ans_echo_questions ucastSource) qa.ucast.keys (additionalsOf qa.ucast)])
+    [Out.ucast addr port id (if Gen.Reply.ans_echo_questions ucastSource then nq else 0) qa.ucast.keys (additionalsOf qa.ucast)])
   ++ (if qa.mcastNow.isEmpty then [] else [Out.ofMcast qa.mcastNow])
 
 /-- `handle_assembled_query` at loop time `clock` -/
@@ -360,7 +360,7 @@ def Host.assemble (h : Host) (clock : Int) (pkts : List Pkt) (addr port : Nat) (
         match queueAdd delayQP h.delayQ clock first.now qa.mcastLast draws1 with
         | .error e => .error e
         | .ok (dq, dr2, draws2) =>
-          .ok ({ host := { h with outQ := oq, delayQ := dq }, outs := immediateOuts qa addr port first.id ucastSource,
+          .ok ({ host := { h with outQ := oq, delayQ := dq }, outs := immediateOuts qa addr port first.id first.nq ucastSource,
                  draws := dr1 ++ dr2 }, draws2)
 
 def tcLo : Int := (Gen.tcDelayRandomInterval.getD 0 0 : Nat)
